@@ -467,8 +467,6 @@ class Interp:
                 return
             case = cases[0]
             pat = case.pattern
-            if case.guard is not None:
-                raise PyvcUnsupported('match guard')
             def test(pat):
                 if isinstance(pat, ast.MatchValue):
                     return self.eq(subj, self.eval(pat.value, cx, ev), cx)
@@ -480,6 +478,13 @@ class Interp:
                     return Or_(*[test(p) for p in pat.patterns])
                 raise PyvcUnsupported(f'match pattern {type(pat).__name__} at {self.where(st)}')
             c = test(pat)
+            if case.guard is not None:
+                # `case P if g`: the guard is evaluated only where the pattern matched (patterns supported here bind no names)
+                sub = cx.fork(c)
+                gv = self.truth(self.eval(case.guard, sub, ev), sub) if not sub.dead else False
+                if len(sub.pcl) != len(cx.pcl) + (0 if concrete_bool(c) is True else 1) and not sub.dead:
+                    raise PyvcUnsupported('a match guard with side conditions')
+                c = And_(c, gv)
             self.branch(c, cx, ev, lambda c2, e2: self.exec_block(case.body, c2, e2),
                         lambda c2, e2: go(cases[1:], c2, e2))
         go(st.cases, ctx, env)
